@@ -9,6 +9,7 @@ CONSTANTS
   RxDeltas = {0, 2}
   Delays <- DelaysSmall
   CtrlDelays = {}
+  IndexMode = "pos"
   Record = TRUE
 INVARIANTS EmitScn
 CHECK_DEADLOCK FALSE
